@@ -294,7 +294,7 @@ open Model.Core Model.InflB Spec in
     of raw streams; its flat twin is the same word with the non-wrapping flag -/
 theorem raw_wrapper_flags (res : Inflated) :
     RingTheory (Model.Infl.flagIgnoreAdler + Model.Infl.flagHasMoreInput)
-      (fun z => inflateSpec #[] 32768 z 0 = .accept res) res.out :=
+      (fun z => inflateSpec #[] 32768 z 0 = .accept res) res.out ((res.bitsUsed + 7) / 8) :=
   ringTheory_of_flat (rawFlatTheory 70 (by decide) (by decide) (by decide) res)
     ⟨by decide, by decide, by decide, by decide, by decide, by decide, by decide⟩ (by decide) (by decide)
 
@@ -303,7 +303,7 @@ open Model.Core Model.InflB Spec in
     has the ring theory of zlib streams -/
 theorem zlib_wrapper_flags (zr : ZInflated) :
     RingTheory (Model.Infl.flagParseZlib + Model.Infl.flagComputeAdler + Model.Infl.flagHasMoreInput)
-      (fun z => zlibSpec #[] 32768 z true = .accept zr) zr.inner.out :=
+      (fun z => zlibSpec #[] 32768 z true = .accept zr) zr.inner.out zr.bytesUsed :=
   ringTheory_of_flat (zlibFlatTheory 15 (by decide) (by decide) (by decide) zr)
     ⟨by decide, by decide, by decide, by decide, by decide, by decide, by decide⟩ (by decide) (by decide)
 
@@ -314,7 +314,8 @@ open Model.Core Spec in
     chunking (cuts inside header and trailer included), any number of laps, nothing assumed about
     the run except that the driver went on while calls were suspended. The last call ends in one of
     four statuses; if that is `Done`, the bytes taken out of the ring after each call, concatenated,
-    are exactly the plaintext of the stream, whatever follows it in the input. -/
+    are exactly the plaintext of the stream and the calls together consumed exactly the stream's bytes
+    (header, body, trailer), whatever follows it in the input. -/
 theorem valid_zlib_stream_through_a_ring_to_the_end (flagsR flagsF W : Nat) (hfl : FlagsRF flagsR flagsF) (hbig : 32768 ≤ W)
     (c : Array UInt8) (cs : List (Array UInt8)) (b : Array UInt8) (oR : Array UInt8) (zr : ZInflated)
     (hW : oR.size = W) (hg : badGeometry flagsR W 0 = false)
@@ -324,11 +325,13 @@ theorem valid_zlib_stream_through_a_ring_to_the_end (flagsR flagsF W : Nat) (hfl
     (lastR : Res × Nat) (hlast : (runRing flagsR W {} oR 0 #[] (c :: cs)).getLast? = some lastR) :
     (lastR.1.status = stDone ∨ lastR.1.status = stHasMoreOutput ∨ lastR.1.status = stNeedsMoreInput ∨
       lastR.1.status = stFailedCannotMakeProgress) ∧
-    (lastR.1.status = stDone → deliveredRing (runRing flagsR W {} oR 0 #[] (c :: cs)) = zr.inner.out) := by
+    (lastR.1.status = stDone → deliveredRing (runRing flagsR W {} oR 0 #[] (c :: cs)) = zr.inner.out ∧
+      ((runRing flagsR W {} oR 0 #[] (c :: cs)).map (·.1.consumed)).sum = zr.bytesUsed) := by
   have T := zlibFlatTheory flagsF hfl.flat (by rw [hfl.zlib]; exact hz) (by rw [hfl.stop]; exact hstop) zr
-  obtain ⟨oF, G, _, hst, hdel⟩ := ring_vs_one_flat_call T hfl hbig oR hW hg c cs b hspec hsus lastR hlast 0
+  obtain ⟨oF, G, _, hst, hdel, hcons⟩ := ring_vs_one_flat_call T hfl hbig oR hW hg c cs b hspec hsus lastR hlast 0
   refine ⟨by rw [← hst]; exact T.never _ b oF G hspec, fun hd => ?_⟩
-  obtain ⟨hw, hb⟩ := T.done _ b oF G hspec (by rw [hst]; exact hd)
+  obtain ⟨hw, hb, hL⟩ := T.done _ b oF G hspec (by rw [hst]; exact hd)
+  refine ⟨?_, by rw [← hcons (by rw [hst, hd]; decide)]; exact hL⟩
   rw [hdel, hw]
   have hf1 := decompress_facts {} (catList (c :: cs)) oF 0 G flagsF
   have hsz : zr.inner.out.size ≤ (decompress {} (catList (c :: cs)) oF 0 G flagsF).out.size := by
@@ -344,15 +347,17 @@ open Model.Core Model.InflB Spec in
     buffer error (never a data error); it consumed no more than it was offered and handed over no
     more than there was room for; offered input and room it made progress or ended the stream;
     everything handed over so far is a prefix of the plaintext the reference decoder defines; and
-    when it reports stream end, everything handed over IS that plaintext. Induction over the call
+    when it reports stream end, everything handed over IS that plaintext AND the input consumed over
+    all calls so far is exactly the length of the stream (`(bitsUsed + 7) / 8` bytes for raw, header +
+    body + trailer for zlib: the stream's last byte is consumed, nothing after it ever is). Induction over the call
     sequence with the invariant `WInv`: between calls the wrapper is the ring driver of C07
     (`Running`: its inner calls are `runRing`'s calls, delivered + pending = what the ring driver
     delivered) or is draining the tail of a finished stream; the loop never runs out of the fuel the
     model gives it. -/
 theorem valid_raw_stream_through_inflate (calls : List (Array UInt8 × Nat)) (b0 : Array UInt8) (res : Inflated)
     (hspec : inflateSpec #[] 32768 (catList (calls.map Prod.fst) ++ b0) 0 = .accept res) :
-    Safe res.out #[] (runInfl (Model.Infl.flagIgnoreAdler + Model.Infl.flagHasMoreInput) WB.fresh #[] calls) := by
-  apply run_safe (raw_wrapper_flags res) b0 calls WB.fresh #[] #[]
+    Safe res.out ((res.bitsUsed + 7) / 8) #[] 0 (runInfl (Model.Infl.flagIgnoreAdler + Model.Infl.flagHasMoreInput) WB.fresh #[] calls) := by
+  apply run_safe (raw_wrapper_flags res) b0 calls WB.fresh #[] #[] 0
   refine .inl ⟨[], #[], ?_, ?_⟩
   · have := Running.fresh (Model.Infl.flagIgnoreAdler + Model.Infl.flagHasMoreInput) #[]
     simpa using this
@@ -365,9 +370,9 @@ open Model.Core Model.InflB Spec in
     number of calls, whatever follows the stream. -/
 theorem valid_zlib_stream_through_inflate (calls : List (Array UInt8 × Nat)) (b0 : Array UInt8) (zr : ZInflated)
     (hspec : zlibSpec #[] 32768 (catList (calls.map Prod.fst) ++ b0) true = .accept zr) :
-    Safe zr.inner.out #[]
+    Safe zr.inner.out zr.bytesUsed #[] 0
       (runInfl (Model.Infl.flagParseZlib + Model.Infl.flagComputeAdler + Model.Infl.flagHasMoreInput) WB.fresh #[] calls) := by
-  apply run_safe (zlib_wrapper_flags zr) b0 calls WB.fresh #[] #[]
+  apply run_safe (zlib_wrapper_flags zr) b0 calls WB.fresh #[] #[] 0
   refine .inl ⟨[], #[], ?_, ?_⟩
   · have := Running.fresh (Model.Infl.flagParseZlib + Model.Infl.flagComputeAdler + Model.Infl.flagHasMoreInput) #[]
     simpa using this
@@ -384,7 +389,8 @@ theorem finish_first_call_raw (z out : Array UInt8) (res : Inflated)
     (hspec : inflateSpec #[] 32768 z 0 = .accept res) :
     (res.out.size ≤ out.size → (inflateFinishFirst Model.Infl.flagIgnoreAdler z out).1.status = Model.InflB.rStreamEnd ∧
       (inflateFinishFirst Model.Infl.flagIgnoreAdler z out).1.out = res.out ∧
-      (inflateFinishFirst Model.Infl.flagIgnoreAdler z out).2 = stDone) ∧
+      (inflateFinishFirst Model.Infl.flagIgnoreAdler z out).2 = stDone ∧
+      (inflateFinishFirst Model.Infl.flagIgnoreAdler z out).1.consumed = (res.bitsUsed + 7) / 8) ∧
     (out.size < res.out.size → (inflateFinishFirst Model.Infl.flagIgnoreAdler z out).1.status = Model.InflB.rBuf ∧
       (inflateFinishFirst Model.Infl.flagIgnoreAdler z out).2 = stFailed) :=
   finish_first_ok (rawFlatTheory (Model.Infl.flagIgnoreAdler + fNonWrapping) (by decide) (by decide) (by decide) res) z out hspec
@@ -396,42 +402,47 @@ theorem finish_first_call_zlib (z out : Array UInt8) (zr : ZInflated)
     (zr.inner.out.size ≤ out.size →
       (inflateFinishFirst (Model.Infl.flagParseZlib + Model.Infl.flagComputeAdler) z out).1.status = Model.InflB.rStreamEnd ∧
       (inflateFinishFirst (Model.Infl.flagParseZlib + Model.Infl.flagComputeAdler) z out).1.out = zr.inner.out ∧
-      (inflateFinishFirst (Model.Infl.flagParseZlib + Model.Infl.flagComputeAdler) z out).2 = stDone) ∧
+      (inflateFinishFirst (Model.Infl.flagParseZlib + Model.Infl.flagComputeAdler) z out).2 = stDone ∧
+      (inflateFinishFirst (Model.Infl.flagParseZlib + Model.Infl.flagComputeAdler) z out).1.consumed = zr.bytesUsed) ∧
     (out.size < zr.inner.out.size →
       (inflateFinishFirst (Model.Infl.flagParseZlib + Model.Infl.flagComputeAdler) z out).1.status = Model.InflB.rBuf ∧
       (inflateFinishFirst (Model.Infl.flagParseZlib + Model.Infl.flagComputeAdler) z out).2 = stFailed) :=
   finish_first_ok (zlibFlatTheory (Model.Infl.flagParseZlib + Model.Infl.flagComputeAdler + fNonWrapping) (by decide) (by decide) (by decide) zr) z out hspec
 
 open Model.Core Model.InflB Spec in
-/-- what `Safe` says, spelled out for the first call that reports stream end -/
-theorem safe_stream_end (P : Array UInt8) : ∀ (rs : List (Nat × Nat × Model.InflB.CallRes)) (D : Array UInt8), Model.Core.Safe P D rs →
+/-- what `Safe` says, spelled out for the first call that reports stream end: all the plaintext has been
+    handed over and exactly `L` bytes of input — the encoded length of the stream — have been consumed -/
+theorem safe_stream_end (P : Array UInt8) (L : Nat) : ∀ (rs : List (Nat × Nat × Model.InflB.CallRes)) (D : Array UInt8) (C : Nat), Model.Core.Safe P L D C rs →
     ∀ k, k < rs.length → (∀ j, j < k → (rs[j]?.map (·.2.2.status)) ≠ some Model.InflB.rStreamEnd) →
       (rs[k]?.map (·.2.2.status)) = some Model.InflB.rStreamEnd →
-      D ++ Model.InflB.delivered (rs.take (k + 1)) = P := by
+      D ++ Model.InflB.delivered (rs.take (k + 1)) = P ∧
+      C + ((rs.take (k + 1)).map (·.2.2.consumed)).sum = L := by
   intro rs
   induction rs with
-  | nil => intro D _ k hk; exact absurd hk (Nat.not_lt_zero _)
+  | nil => intro D C _ k hk; exact absurd hk (Nat.not_lt_zero _)
   | cons r rest ih =>
-    intro D hs k hk hbefore hend
+    intro D C hs k hk hbefore hend
     obtain ⟨n, room, r⟩ := r
     obtain ⟨_, _, _, _, _, hs2⟩ := hs
     cases k with
     | zero =>
       simp only [List.getElem?_cons_zero, Option.map_some, Option.some.injEq] at hend
       rw [if_pos hend] at hs2
-      show D ++ Model.InflB.delivered [(n, room, r)] = P
-      rw [Model.InflB.delivered_cons, Model.InflB.delivered_nil, Array.append_empty]; exact hs2
+      show D ++ Model.InflB.delivered [(n, room, r)] = P ∧ C + ([(n, room, r)].map (·.2.2.consumed)).sum = L
+      rw [Model.InflB.delivered_cons, Model.InflB.delivered_nil, Array.append_empty]
+      exact ⟨hs2.1, by simpa using hs2.2⟩
     | succ k =>
       have h0 := hbefore 0 (Nat.succ_pos _)
       simp only [List.getElem?_cons_zero, Option.map_some, ne_eq, Option.some.injEq] at h0
       rw [if_neg h0] at hs2
-      have := ih (D ++ r.out) hs2 k (by simpa using hk)
+      have := ih (D ++ r.out) (C + r.consumed) hs2 k (by simpa using hk)
         (fun j hj => by have := hbefore (j + 1) (by omega); simpa using this)
         (by simpa using hend)
-      rw [← this, List.take_succ_cons, Model.InflB.delivered_cons, Array.append_assoc]
+      rw [List.take_succ_cons, Model.InflB.delivered_cons, ← Array.append_assoc, List.map_cons, List.sum_cons, ← Nat.add_assoc]
+      exact this
 
 /-- … and for every call before that: no data error, counts within bounds, a prefix of the plaintext. -/
-theorem safe_every_call (P : Array UInt8) : ∀ (rs : List (Nat × Nat × Model.InflB.CallRes)) (D : Array UInt8), Model.Core.Safe P D rs →
+theorem safe_every_call (P : Array UInt8) (L : Nat) : ∀ (rs : List (Nat × Nat × Model.InflB.CallRes)) (D : Array UInt8) (C : Nat), Model.Core.Safe P L D C rs →
     ∀ k, k < rs.length → (∀ j, j < k → (rs[j]?.map (·.2.2.status)) ≠ some Model.InflB.rStreamEnd) →
       ∀ n room r, rs[k]? = some (n, room, r) →
         r.status ≠ Model.InflB.rData ∧ r.consumed ≤ n ∧ r.out.size ≤ room ∧
@@ -439,9 +450,9 @@ theorem safe_every_call (P : Array UInt8) : ∀ (rs : List (Nat × Nat × Model.
         Model.Core.IsPrefix (D ++ Model.InflB.delivered (rs.take (k + 1))) P := by
   intro rs
   induction rs with
-  | nil => intro D _ k hk; exact absurd hk (Nat.not_lt_zero _)
+  | nil => intro D C _ k hk; exact absurd hk (Nat.not_lt_zero _)
   | cons r0 rest ih =>
-    intro D hs k hk hbefore n room r hget
+    intro D C hs k hk hbefore n room r hget
     obtain ⟨n0, room0, r0⟩ := r0
     obtain ⟨hst, hc, ho, _, hpre, hs2⟩ := hs
     cases k with
@@ -464,7 +475,7 @@ theorem safe_every_call (P : Array UInt8) : ∀ (rs : List (Nat × Nat × Model.
       have h0 := hbefore 0 (Nat.succ_pos _)
       simp only [List.getElem?_cons_zero, Option.map_some, ne_eq, Option.some.injEq] at h0
       rw [if_neg h0] at hs2
-      have := ih (D ++ r0.out) hs2 k (by simpa using hk)
+      have := ih (D ++ r0.out) (C + r0.consumed) hs2 k (by simpa using hk)
         (fun j hj => by have := hbefore (j + 1) (by omega); simpa using this) n room r (by simpa using hget)
       rw [List.take_succ_cons, Model.InflB.delivered_cons, ← Array.append_assoc]
       exact this
@@ -474,16 +485,17 @@ open Model.Core Model.InflB Spec in
     dynamic and stored blocks (any tokens, any valid code lengths, any header run-length coding), frame
     it as zlib with any RFC-valid header pair, cut the bytes holding that encoding into any chunks and
     feed them through `inflate()` with any output sizes: what comes out is, call by call, a prefix of
-    the LZ77 expansion of the blocks' tokens and, at the first stream end, exactly that expansion.
+    the LZ77 expansion of the blocks' tokens and, at the first stream end, exactly that expansion, with
+    exactly the bytes of the encoding (2 header bytes, the padded body, 4 trailer bytes) consumed.
     (`C09.zlib_encoding_round_trip` + `valid_zlib_stream_through_inflate`.) -/
 theorem conforming_zlib_encoding_through_inflate (cmf flg : Nat) (hc : cmf < 256) (hf : flg < 256)
     (hv : zlibHeaderValid cmf flg = true) (bs : List EncBlock) (hok : C10.StreamOk 32768 #[] bs)
     (calls : List (Array UInt8 × Nat)) (b0 : Array UInt8)
     (h : HasBits (catList (calls.map Prod.fst) ++ b0) 0 (zlibBits cmf flg bs)) :
-    Safe (expandBlocks #[] #[] bs) #[]
+    Safe (expandBlocks #[] #[] bs) ((16 + (blocksBits 16 bs).length + 7) / 8 + 4) #[] 0
       (runInfl (Model.Infl.flagParseZlib + Model.Infl.flagComputeAdler + Model.Infl.flagHasMoreInput) WB.fresh #[] calls) := by
-  obtain ⟨zr, hacc, hout, _⟩ := C09.zlib_encoding_round_trip cmf flg hc hf hv 32768 _ bs hok h
-  rw [← hout]
+  obtain ⟨zr, hacc, hout, hused⟩ := C09.zlib_encoding_round_trip cmf flg hc hf hv 32768 _ bs hok h
+  rw [← hout, ← hused]
   exact valid_zlib_stream_through_inflate calls b0 zr hacc
 
 open Model.Core Model.InflB in
